@@ -69,19 +69,19 @@ type Viol struct {
 // Rec receives what one case observed. It is used from the goroutine that runs
 // the case only, except where noted.
 type Rec struct {
-	mu       sync.Mutex
-	phase    string
-	idx      int
-	Evals    int64             `json:"e,omitempty"`
-	NTHash   []uint64          `json:"h,omitempty"`
-	NTCount  int64             `json:"n,omitempty"`
-	Counts   map[string]int64  `json:"c,omitempty"`
-	Sets     map[string][]uint64 `json:"s,omitempty"`
-	Viols    []Viol            `json:"v,omitempty"`
-	Samples  []interface{}     `json:"x,omitempty"`
-	Incon    []string          `json:"i,omitempty"`
-	journal  *os.File
-	cur      string
+	mu      sync.Mutex
+	phase   string
+	idx     int
+	Evals   int64               `json:"e,omitempty"`
+	NTHash  []uint64            `json:"h,omitempty"`
+	NTCount int64               `json:"n,omitempty"`
+	Counts  map[string]int64    `json:"c,omitempty"`
+	Sets    map[string][]uint64 `json:"s,omitempty"`
+	Viols   []Viol              `json:"v,omitempty"`
+	Samples []interface{}       `json:"x,omitempty"`
+	Incon   []string            `json:"i,omitempty"`
+	journal *os.File
+	cur     string
 }
 
 // Eval counts n executed evaluations.
@@ -394,6 +394,17 @@ func blockedSignature(dump string) string {
 
 var frameRe = regexp.MustCompile(`github\.com/google/badwolf/([A-Za-z0-9_/\.\(\)\*]+)`)
 
+// CleanFrame strips argument lists from a stack frame name, keeping method
+// receivers such as (*T).
+func CleanFrame(f string) string {
+	for i := 0; i < len(f); i++ {
+		if f[i] == '(' && !(i+1 < len(f) && f[i+1] == '*') {
+			return f[:i]
+		}
+	}
+	return f
+}
+
 // PanicClass builds a stable class for a panic: message class + innermost
 // badwolf frame.
 func PanicClass(msg, stack string) string {
@@ -409,10 +420,7 @@ func PanicClass(msg, stack string) string {
 	}
 	fr := "?"
 	if m := frameRe.FindStringSubmatch(stack); m != nil {
-		fr = m[1]
-		if i := strings.Index(fr, "("); i > 0 && !strings.HasPrefix(fr[i:], "(*") {
-			fr = fr[:i]
-		}
+		fr = CleanFrame(m[1])
 	}
 	return cls + "@" + fr
 }
@@ -758,10 +766,7 @@ func deadlockClass(stack string) string {
 			continue
 		}
 		if m := frameRe.FindStringSubmatch(g.Stack); m != nil {
-			f := m[1]
-			if i := strings.Index(f, "("); i > 0 && !strings.HasPrefix(f[i:], "(*") {
-				f = f[:i]
-			}
+			f := CleanFrame(m[1])
 			if !seen[f] {
 				seen[f] = true
 				fr = append(fr, f)
